@@ -687,4 +687,8 @@ theorem sem_addSumWeighted {v : Label → Bool} {ins out : List (Nat × Label)} 
     · obtain ⟨a, b⟩ := sem_weightedLoop _ _ _ _ _ h (winv_init ins) (fun _ => rfl)
       exact ⟨by rw [a, wsum_nil, wsum_sortBy, pwsum_nil]; simp, b⟩
 
+theorem wsum_congr {v v' : Label → Bool} {ls : List (Nat × Label)} (h : ∀ p ∈ ls, v' p.2 = v p.2) : wsum v' ls = wsum v ls := by
+  unfold wsum; congr 1; apply List.map_congr_left; intro p hp; simp [bv, h p hp]
+
+
 end Cirbo
